@@ -275,14 +275,38 @@ def _linkkind(ck: Checker) -> None:
     f_sym = f_sym or ("is_symlink" if scope_of(fn).get("is_symlink") else None)
     f_hard = f_hard or ("is_hardlink" if scope_of(fn).get("is_hardlink") else None)
     f_copy = f_copy or ("is_copy" if scope_of(fn).get("is_copy") else None)
+    # a flag that is a plain copy of another local (`file_is_symlink = is_symlink`) stands for that local
+    def _canon(nm):
+        for _ in range(4):
+            ds_ = scope_of(fn).get(nm or "")
+            if nm and len(ds_) == 1 and ds_[0].kind == "assign" and isinstance(ds_[0].value, ast.Name) and not fn.has_param(ds_[0].value.id) and scope_of(fn).get(ds_[0].value.id):
+                nm = ds_[0].value.id
+            else:
+                break
+        return nm
+
+    f_sym, f_hard, f_copy = _canon(f_sym), _canon(f_hard), _canon(f_copy)
     flags = {f_sym: "is_symlink", f_hard: "is_hardlink", f_copy: "is_copy"}
     for name in (f_sym, f_hard, f_copy):
         for d in scope_of(fn).get(name or ""):
             if d.kind != "assign":
                 continue
             n += 1
-            names = {x.id for x in walk_expr(d.value) if isinstance(x, ast.Name)}
-            ok = names <= {mparam, f_sym, f_hard, f_copy}
+            # what the classification ultimately depends on: locals are followed back to parameters / free names
+            names, seen_ = set(), set()
+            todo_ = [x.id for x in walk_expr(d.value) if isinstance(x, ast.Name)]
+            while todo_:
+                nm_ = todo_.pop()
+                if nm_ in seen_:
+                    continue
+                seen_.add(nm_)
+                ds_ = [dd for dd in scope_of(fn).get(nm_) if dd.kind in ("assign", "annassign") and getattr(dd, "value", None) is not None]
+                if ds_ and not fn.has_param(nm_) and len(ds_) == len(scope_of(fn).get(nm_)):
+                    for dd in ds_:
+                        todo_ += [x.id for x in walk_expr(dd.value) if isinstance(x, ast.Name)]
+                else:
+                    names.add(nm_)
+            ok = names <= {mparam}
             ck.require(ok, "C10.linkkind", fn, d.node, f"{flags[name]} depends only on the workspace file's own metadata", f"`{name} = {norm(d.value)}` depends on {sorted(names - {mparam})}: a file hard-linked to something other than the cache would be treated as an independent copy and never relinked")
     ck.floor("C10.linkkind", n, 3, "link-kind classifications in _needs_relink")
     from . import round5 as _r5
